@@ -83,4 +83,74 @@ Proof.
   assert (HI : forall sp0 r p, ref_item T sp0 ("("%char :: r) p = Ok ([TOp OLp], r, p + 1)) by (intros; reflexivity).
   rewrite HI. rewrite (run_unknown sp w b _ _ U Fs). f_equal. f_equal. lia.
 Qed.
+(* ---------- missing ids: "LicenseRef-" / "DocumentRef-" followed by no id character ---------- *)
+Definition no_id_follows (b : str) : Prop := match b with [] => True | c :: _ => is_idchar c = false end.
+
+Lemma item_missing_licref spaced b pos : no_id_follows b ->
+  ref_item T spaced (k_licref ++ b) pos = Err (EExpectedId (pos + length k_licref)).
+Proof.
+  intros Hb. unfold ref_item.
+  replace (first_op ops (k_licref ++ b)) with (@None (op * str * nat)) by reflexivity.
+  replace (strip_prefix k_docref (k_licref ++ b)) with (@None str) by reflexivity.
+  rewrite strip_prefix_app. pose proof (span_app is_idchar [] b (Forall_nil _) Hb) as Hs. cbn [app] in Hs. rewrite Hs. reflexivity.
+Qed.
+Lemma item_missing_docref spaced b pos : no_id_follows b ->
+  ref_item T spaced (k_docref ++ b) pos = Err (EExpectedId (pos + length k_docref)).
+Proof.
+  intros Hb. unfold ref_item.
+  replace (first_op ops (k_docref ++ b)) with (@None (op * str * nat)) by reflexivity.
+  rewrite strip_prefix_app. pose proof (span_app is_idchar [] b (Forall_nil _) Hb) as Hs. cbn [app] in Hs. rewrite Hs. reflexivity.
+Qed.
+
+(* a run that starts (after optional spaces) with an item that fails, fails with that item's error *)
+Lemma run_item_err sp c r pos acc (e : nat -> err) : Forall (fun x => is_space x = true) sp -> is_space c = false ->
+  (forall spaced p, ref_item T spaced (c :: r) p = Err (e p)) ->
+  ref_run T (sp ++ c :: r) pos acc = Err (e (pos + length sp)).
+Proof.
+  intros Fs Hc HI. rewrite (ref_run_unfold T HT).
+  assert (Hsp : span is_space (sp ++ c :: r) = (sp, c :: r)).
+  { rewrite (span_spaces_app sp _ Fs). cbn [span]. rewrite Hc. cbn [fst snd]. rewrite app_nil_r. reflexivity. }
+  rewrite Hsp. destruct (sp ++ c :: r) eqn:E0; [destruct sp; discriminate|]. rewrite HI. reflexivity.
+Qed.
+
+Theorem missing_licref_first sp b : Forall (fun x => is_space x = true) sp -> no_id_follows b ->
+  ref_tokens T (sp ++ k_licref ++ b) = Err (EExpectedId (length sp + length k_licref)).
+Proof.
+  intros Fs Hb. change (ref_tokens T (sp ++ k_licref ++ b)) with (ref_run T (sp ++ k_licref ++ b) 0 []).
+  change (k_licref ++ b) with ("L"%char :: (tl k_licref ++ b)).
+  rewrite (run_item_err sp "L"%char (tl k_licref ++ b) 0 [] (fun p => EExpectedId (p + length k_licref)) Fs eq_refl); [reflexivity|].
+  intros spaced p. exact (item_missing_licref spaced b p Hb).
+Qed.
+Theorem missing_licref_after a c sp b ts : ref_tokens T a = Ok ts -> c = " "%char \/ c = "("%char \/ c = ":"%char ->
+  Forall (fun x => is_space x = true) sp -> no_id_follows b ->
+  ref_tokens T (a ++ c :: sp ++ k_licref ++ b) = Err (EExpectedId (length a + 1 + length sp + length k_licref)).
+Proof.
+  intros Ha Hc Fs Hb.
+  change (ref_tokens T (a ++ c :: sp ++ k_licref ++ b)) with (ref_run T (a ++ c :: sp ++ k_licref ++ b) 0 []).
+  assert (Bd : boundary a c) by (destruct Hc as [ -> | [ -> | -> ] ]; split; try reflexivity; discriminate).
+  rewrite (ref_run_app T HT a c (sp ++ k_licref ++ b) 0 [] Bd).
+  change (ref_run T a 0 []) with (ref_tokens T a). rewrite Ha.
+  assert (HR : forall sp0, Forall (fun x => is_space x = true) sp0 -> forall p acc0,
+            ref_run T (sp0 ++ k_licref ++ b) p acc0 = Err (EExpectedId (p + length sp0 + length k_licref))).
+  { intros sp0 F0 p acc0. change (k_licref ++ b) with ("L"%char :: (tl k_licref ++ b)).
+    rewrite (run_item_err sp0 "L"%char (tl k_licref ++ b) p acc0 (fun q => EExpectedId (q + length k_licref)) F0 eq_refl); [reflexivity|].
+    intros spaced q. exact (item_missing_licref spaced b q Hb). }
+  destruct Hc as [ -> | [ -> | -> ] ].
+  - change (" "%char :: sp ++ k_licref ++ b) with ((" "%char :: sp) ++ k_licref ++ b).
+    rewrite (HR (" "%char :: sp)) by (constructor; [reflexivity|assumption]). cbn [length]. f_equal. f_equal. lia.
+  - rewrite (ref_run_unfold T HT). cbn [span]. replace (is_space "("%char) with false by reflexivity. cbv beta iota zeta. cbn [length].
+    assert (HI : forall sp0 r p, ref_item T sp0 ("("%char :: r) p = Ok ([TOp OLp], r, p + 1)) by (intros; reflexivity).
+    rewrite HI, (HR sp Fs). f_equal. f_equal. lia.
+  - rewrite (ref_run_unfold T HT). cbn [span]. replace (is_space ":"%char) with false by reflexivity. cbv beta iota zeta. cbn [length].
+    assert (HI : forall sp0 r p, ref_item T sp0 (":"%char :: r) p = Ok ([TOp OColon], r, p + 1)) by (intros; reflexivity).
+    rewrite HI, (HR sp Fs). f_equal. f_equal. lia.
+Qed.
+Theorem missing_docref_first sp b : Forall (fun x => is_space x = true) sp -> no_id_follows b ->
+  ref_tokens T (sp ++ k_docref ++ b) = Err (EExpectedId (length sp + length k_docref)).
+Proof.
+  intros Fs Hb. change (ref_tokens T (sp ++ k_docref ++ b)) with (ref_run T (sp ++ k_docref ++ b) 0 []).
+  change (k_docref ++ b) with ("D"%char :: (tl k_docref ++ b)).
+  rewrite (run_item_err sp "D"%char (tl k_docref ++ b) 0 [] (fun p => EExpectedId (p + length k_docref)) Fs eq_refl); [reflexivity|].
+  intros spaced p. exact (item_missing_docref spaced b p Hb).
+Qed.
 End UnknownT.
